@@ -12,7 +12,7 @@ CFG = {
     "rule": "4 tables (chain, linear, quadratic, double) x hash families {fnv, id, const, const7, mod3, class (one probe class at "
             "every capacity), class5, high} x options {zero-valued (constructor defaults), explicit defaults, larger valid capacities, "
             "tighter load factors, and pairs with maxLF < 2*minLF (e.g. chain 4/6, open addressing 1/4 - 3/8, 3/8 - 1/2) for which the table rebuilt by a "
-            "shrink grows again while entries are re-inserted (nested resize; outside the theorems' domain, covered by the correspondence only)}. exhaustive: every history over {Put k, Delete k, DeleteAll} on 3 keys up to the length bound, from "
+            "shrink grows again while entries are re-inserted (nested resize; inside the theorems' domain since the generic re-insertion lemmas)}. exhaustive: every history over {Put k, Delete k, DeleteAll} on 3 keys up to the length bound, from "
             "an empty table and from a table prefilled to just below its first growth, Size/Get after every step and the full battery "
             "(Size, IsEmpty, Get of every key and an absent one, All, layout dump, Equal against a rebuilt and a perturbed sibling) at the end; "
             "adversarial: fill across the growth threshold with absent-key lookups, delete-and-revive every key, oscillation across "
